@@ -4,8 +4,8 @@
    does; their agreement after every call is therefore a theorem.  The model has no write buffer:
    what [tab]/[data] denote is what an independent reader sees the moment the call returns — the
    correspondence check observes exactly that through a fresh OS handle. *)
-From Model Require Import Base Str Fmt Blocks Container AFile.
-From Proofs Require Import BaseFacts FmtFacts ContainerFacts ContainerProps.
+From Model Require Import Base Str Fmt Blocks Container AFile GFile.
+From Proofs Require Import BaseFacts FmtFacts ContainerFacts ContainerProps GapFacts.
 Open Scope Z_scope.
 
 (* after every call — successful or refused — the open object's table is the table on disk *)
@@ -19,6 +19,15 @@ Theorem C10_sync_history : forall s ops, compact s -> Forall op_ok ops ->
   mem (run_ops s ops) = tab (run_ops s ops).
 Proof. intros s ops Hc Ho. apply compact_wf. now apply run_compact. Qed.
 Print Assumptions C10_sync_history.
+
+(* the same on every ordered file (GFile.v: padding between blocks, bytes behind the last one) *)
+Theorem C10_sync_history_ordered : forall s ops, ordered s -> Forall op_ok ops ->
+  mem (run_ops s ops) = tab (run_ops s ops) /\ c_reopen (run_ops s ops) = run_ops s ops.
+Proof.
+  intros s ops Hc Ho. pose proof (run_ordered s ops Hc Ho) as Hr. split; [now apply ordered_wf|].
+  destruct Hr as [a [_ ->]]. reflexivity.
+Qed.
+Print Assumptions C10_sync_history_ordered.
 
 (* closing and reopening (the table is re-read from the file) changes nothing, at any point of a history *)
 Theorem C10_reopen : forall s, compact s -> c_reopen s = s.
